@@ -863,7 +863,8 @@ spec("C14", plan=plan_c14, post=post_c14,
           "escapes, 1-4 byte characters, whitespace everywhere), every truncation of each and 12 single-edit mutants of each (delete / "
           "insert / replace / swap with JSON-significant and UTF-8-significant bytes); nesting 1..300; a coverage-guided libFuzzer campaign "
           "(8 jobs x 150 k executions, thorough 4 M, JSON dictionary, seeded from the repository's data files) with the same differential "
-          "oracle inside the target under ASan/UBSan.  Any exception is a violation.  "
+          "oracle inside the target under ASan/UBSan.  Every generated document and mutant and every eighth enumerated string is parsed a "
+          "second time from a buffer_input whose reader delivers one byte (resp. 1-5 bytes) per call.  Any exception is a violation.  "
           "Non-trivial: strings the oracle accepts and single-edit mutants of accepted documents; distinct by hash of the text.  The "
           "oracle itself is cross-checked against Python's json on the sampled documents every run.",
      assumptions=COMMON_ASSUME + ["oracles/json_ref.hpp transcribes RFC 8259; cross-checked every run against Python's json module on up to 64000 sampled strings"])
